@@ -3,7 +3,7 @@ import re
 
 from engines import effects, cursor, readloop
 from engines.paths import enumerate_paths, classify_return
-from engines.prog import cname, term_str, place_fields, op_place
+from engines.prog import int_bits, cname, term_str, place_fields, op_place
 from engines import terms as T
 from engines.terms import Aff
 
@@ -281,6 +281,9 @@ def run(ctx):
                     v = p.origin_op(t["discr"], i)
                     if v[0] == "discr" and isinstance(v[1], tuple) and v[1][0] in ("errpayload",) and T.contains(v[1], lambda x: x[0] == "call" and x[1] == cname(fr.term(pbb)["func"])):
                         vals = [int(x) for x, g in zip(t["vals"], t["tgts"]) if g == p.blocks[i + 1]]
+                        if not vals and p.blocks[i + 1] == t["otherwise"]:
+                            # `if let Err(Failure(..))` tests one variant: the other edge stands for the remaining ones
+                            vals = [k_ for k_ in (0, 1, 2) if str(k_) not in t["vals"]]
                         kind = vals
             if not kind or p.end == "unreachable":
                 continue
@@ -332,7 +335,12 @@ def run(ctx):
                         # length: the value part of le_u24 at 0 ; body = take(length) at 4
                         tk = T.find(body, lambda x: T.is_call(x, r"take::\{closure#0\}$"))
                         st = cursor.nom_step(tk) if tk is not None else None
-                        lenread = cursor.reading(st[3]) if st is not None and st[3] is not None else None
+                        cnt = st[3] if st is not None else None
+                        # a lossless widening (`len as usize` of the u24 read into a u32) does not change the count
+                        while isinstance(cnt, tuple) and cnt[0] == "cast" and cnt[3] == "IntToInt" and str(cnt[4]).startswith("u") and str(cnt[2]).startswith("u") and \
+                                int_bits(cnt[2]) >= int_bits(cnt[4]):
+                            cnt = cnt[1]
+                        lenread = cursor.reading(cnt) if cnt is not None else None
                         ok = rs is not None and rs["off"] == Aff(3) and rs["width"] == 1 and bo == Aff(4) and lenread is not None and lenread["kind"] == "le_u24" and lenread["off"] == Aff(0) \
                             and T.is_param(T.peel(bb_), 1) and T.is_param(T.peel(rs["base"]), 1)
                         why = "seq read at %s, payload at %r with length from %s" % (rs and repr(rs["off"]), bo, lenread and (lenread["kind"], repr(lenread["off"])))
